@@ -8,7 +8,7 @@
    error), ACK of EOF/Finished with the matching subtype, header type matching the payload,
    data-field length = payload length <= 65535 (65533 with CRC).  [blen b] is [N.of_nat (length b)]. *)
 From CFDP Require Import Base.Prelude Model.PduUser Model.CodecBase Model.Codec Model.CodecUser
-  Proofs.CodecBaseP Proofs.CodecP Proofs.CodecUserP.
+  Proofs.CodecBaseP Proofs.CodecP Proofs.CodecUserP Proofs.CodecBytesP.
 
 Theorem pdu_roundtrip : forall p, wf_pdu p -> pdu_decode (pdu_encode p) = Ok p.
 Proof. exact pdu_roundtrip_holds. Qed.
@@ -33,6 +33,14 @@ Proof. exact uo_len_holds. Qed.
 
 Theorem report_roundtrip : forall p r, wf_report p -> report_decode (report_encode p ++ r) = Ok (p, r).
 Proof. exact report_rt_holds. Qed.
+
+(* what the encoders produce are byte strings (every element < 256), so the decode theorems of
+   C06, which are about byte strings, apply to every encoding *)
+Theorem encodings_are_bytes :
+  (forall p, wf_pdu p -> is_bytes (pdu_encode p)) /\
+  (forall u, wf_uo u -> is_bytes (uo_encode u)) /\
+  (forall p, is_bytes (report_encode p)).
+Proof. splits; [exact pdu_encode_bytes_holds | exact uo_encode_bytes_holds | exact report_encode_bytes_holds]. Qed.
 
 (* non-vacuity: well-formed values exist for every clause, with and without CRC *)
 Example C05_nonvacuous :
@@ -60,3 +68,4 @@ Print Assumptions header_roundtrip.
 Print Assumptions uo_roundtrip.
 Print Assumptions uo_len.
 Print Assumptions report_roundtrip.
+Print Assumptions encodings_are_bytes.
